@@ -56,7 +56,7 @@ def model(tier, rep, name="Vector", mode="valid"):
         for cap, ss in bycap.items():
             p = os.path.join(d, "vector_%s_%s_%s_cap%d.ndjson" % (kind, tier, mode, cap))
             vlib.write_scripts(ss, p)
-            scripts[kind][cap] = (p, len(ss))
+            scripts[kind][cap] = (p, len(ss), ss)
         rep.cov["modules"]["Vector[%s]" % kind].update({"scripts": len(sc), "planner": st})
         pick = [x for x in sc if x[-1].get("bad")] if mode == "contract" else sc
         if pick:
@@ -105,7 +105,7 @@ def execute(tier, scripts, bins, impl="etl", tag="", random=True):
         if impl == "std" and kind == "ipv":
             continue
         for elem in ELEMS:
-            for cap, (sp, n) in sorted(scripts[kind].items()):
+            for cap, (sp, n, _ss) in sorted(scripts[kind].items()):
                 if kind == "stack" and cap == 0:
                     continue
                 tp = os.path.join(d, "vector_%s_%s_%s_%d%s.ndjson" % (impl, kind, elem, cap, tag))
@@ -194,3 +194,62 @@ def contract_pipeline(tier, rep):
         rep.cov["modules"]["Vector[contract:%s]" % var]["not_drivable"] = st["unsupported"]
         nscr += st["scripts"]
     return nscr
+
+
+def memory_pipeline(tier, rep):
+    """C02 for the vector family: the model's histories (incl. default-initialisation into dirty storage)
+    are executed in an ASan+UBSan build with the allocation monitor; a sanitizer stop becomes a `trap`
+    event (kind mem-trap), an allocation inside a library call mem-alloc."""
+    scripts = model(tier, rep)
+    bins = build_drivers(tier, sanitize=True, std=False)
+    d = vlib.workdir("traces")
+    outs = []
+    traps = 0
+    nscr = 0
+    env_note = []
+    from concurrent.futures import ThreadPoolExecutor
+    jobs = []
+    for kind in KINDS:
+        for elem in ELEMS:
+            for cap, (sp, n, ss) in sorted(scripts[kind].items()):
+                if kind == "stack" and cap == 0:
+                    continue
+                jobs.append((kind, elem, cap, ss))
+
+    def one(j):
+        kind, elem, cap, ss = j
+        tp = os.path.join(d, "vector_san_%s_%s_%d.ndjson" % (kind, elem, cap))
+        r = vlib.run_scripts_resilient(lambda sp: [bins["etl_small"], "replay", kind, elem, str(cap), sp], ss, tp,
+                                       "vecsan_%s_%s_%d" % (kind, elem, cap), chunk=4000, par=2)
+        return tp, len(r["traps"]), len(ss)
+    with ThreadPoolExecutor(max_workers=8) as ex:
+        for tp, t, n in ex.map(one, jobs):
+            outs.append(tp)
+            traps += t
+            nscr += n
+    steps = 300 if tier == "quick" else 3000
+    nh = 0
+    for kind in KINDS:
+        for elem in RANDOM_ELEMS:
+            if kind == "stack" and elem in ("mo", "co"):
+                continue
+            for cap in bins["bigcaps"]:
+                tp = os.path.join(d, "vector_san_%s_%s_r%d.ndjson" % (kind, elem, cap))
+                rc, err = vlib.run([bins["etl_big"], "random", kind, elem, str(cap), str(steps), str(vlib.seed())], tp, ok_codes=None)
+                if rc != 0:
+                    rp = [l for l in err.splitlines() if "ERROR" in l or "runtime error" in l]
+                    with open(tp, "a") as f:
+                        f.write(json.dumps({"op": "trap", "rc": rc, "inst": "%s_%s_%d" % (kind, elem, cap),
+                                            "report": (rp[0] if rp else err[-300:])[:400], "script": [], "events_in_script": 0}) + "\n")
+                outs.append(tp)
+                nh += 1
+    merged = concat(outs, os.path.join(d, "vector_san_merged"), 8)
+    tv = vlib.tv_parallel("VectorTrace.tla", "VectorTrace.cfg", merged, "vector_tv_san")
+    rep.add_tv("Vector[asan+ubsan]", tv, nscr + nh)
+    rep.cov["modules"]["Vector[asan+ubsan]"]["sanitizer_stops"] = traps
+    rep.cov["evaluations"] = rep.cov.get("evaluations", 0) + tv["events"]
+    rep.cov["distinct_nontrivial"] = rep.cov.get("distinct_nontrivial", 0) + nscr + nh
+    rep.cov["rule"] = (rep.cov.get("rule", "") + " Vector: one case per transition (state, operation, arguments) exported by TLC from spec/Vector.tla "
+                       "(distinct by construction, each executed from a state reached by a real call history) plus one per seeded random history; "
+                       "every executed call is an evaluation.").strip()
+    return tv
